@@ -35,3 +35,14 @@ C17_RAISE_EXCEPTIONS = {
     "PluginOne": "debug rule MD999 shipped for the test-suite: raises when its 'test_value' item is set, to exercise the plugin error path; disabled by default",
     "DebugExtension": "test hook: raises on demand so that the test-suite can exercise main's error paths; never enabled by a user configuration",
 }
+
+# C04 R04c: removals from the parser token stack that legitimately generate no end token
+C04_POP_EXCEPTIONS = {
+    "LinkReferenceDefinitionContinuationHelper.__stop_lrd_continuation": "the entry removed is the link-reference-definition entry, which has no start token and must never generate an end token (asserted in the factory)",
+    "LinkReferenceDefinitionHelper.__prepare_for_requeue_reset_document_and_stack": "LRD rewind: the lines are requeued and the stack is cut back to / restored from the copy taken when the definition started, so the removed entries are re-created when the lines are parsed again",
+}
+
+# C04 R04d: classes whose constructor needs no companion
+C04_START_EXCEPTIONS = {
+    "NewListItemMarkdownToken": "a new-list-item token is never closed by an end token of its own (the list's end closes it); requires_end_token is inherited from the container base",
+}
